@@ -146,8 +146,9 @@ def run(ctx):
         if i % 12 == 3:
             # identifiers have no maximum length: a bar line that is longer in the .inkfempre (blanks inside the braces, the node
             # count) than in the definition, around the 4096 bytes of a read buffer
-            long_id = "b" + "x" * (4055 + (i % 7))
             old = s.bars[0]["id"]
+            line = next(l_ for l_ in s.text().split("\n") if l_.startswith(old + " ->"))
+            long_id = "b" + "x" * (4092 - (i % 5) - len(line) + len(old) - 1)      # the definition's bar line: 4088 .. 4092 bytes
             s.bars[0]["id"] = long_id
             for l in s.loads:
                 if l["bar"] == old:
